@@ -61,23 +61,30 @@ def main():
     pid = sys.argv[1]
     outp = sys.argv[2]
     thorough = len(sys.argv) > 3 and sys.argv[3] == "thorough"
-    props = os.path.join(LEAN, "Corankco", "Props", pid + ".lean")
-    res = {"obligations": 0, "discharged": 0, "theorems": {}, "problems": [], "checker_cmd": ""}
-    if not os.path.exists(props):
-        res["problems"].append("no Props/%s.lean" % pid)
+    pdir = os.path.join(LEAN, "Corankco", "Props")
+    files = sorted(f for f in os.listdir(pdir) if re.fullmatch(re.escape(pid) + r"[a-z]?\.lean", f)) \
+        if os.path.isdir(pdir) else []
+    res = {"obligations": 0, "discharged": 0, "theorems": {}, "problems": [], "checker_cmd": "", "files": files}
+    if not files:
+        res["problems"].append("no Props/%s*.lean" % pid)
         json.dump(res, open(outp, "w"))
         return
-    src = strip_comments(open(props).read())
-    ns = re.findall(r"^namespace\s+(\S+)", src, re.M)
-    prefix = ".".join(ns) + "." if ns else ""
-    names = re.findall(r"^\s*(?:private\s+|protected\s+)?theorem\s+(\S+)", src, re.M)
+    names = []
+    for fname in files:
+        src = strip_comments(open(os.path.join(pdir, fname)).read())
+        ns = re.findall(r"^namespace\s+(\S+)", src, re.M)
+        prefix = ".".join(ns) + "." if ns else ""
+        for n in re.findall(r"^\s*(?:private\s+|protected\s+)?theorem\s+(\S+)", src, re.M):
+            names.append(prefix + n)
     res["obligations"] = len(names)
     os.makedirs(os.path.join(LEAN, ".lake", "audit"), exist_ok=True)
     af = os.path.join(LEAN, ".lake", "audit", pid + ".lean")
     with open(af, "w") as f:
-        f.write("import Corankco.Props.%s\n" % pid)
+        for fname in files:
+            f.write("import Corankco.Props.%s\n" % fname[:-5])
         for n in names:
-            f.write("#print axioms %s%s\n" % (prefix, n))
+            f.write("#print axioms %s\n" % n)
+    prefix = ""
     cmd = ["lake", "env", "lean", af]
     res["checker_cmd"] = "cd lean && lake build && lake env lean .lake/audit/%s.lean  (#print axioms per theorem)" % pid
     proc = subprocess.run(cmd, cwd=LEAN, stdout=subprocess.PIPE, stderr=subprocess.STDOUT, timeout=1800)
@@ -105,7 +112,7 @@ def main():
     if hits:
         res["problems"].append("forbidden tokens: " + "; ".join(hits[:10]))
     if thorough:
-        lc = subprocess.run(["lake", "env", "leanchecker", "Corankco.Props." + pid], cwd=LEAN,
+        lc = subprocess.run(["lake", "env", "leanchecker"] + ["Corankco.Props." + f[:-5] for f in files], cwd=LEAN,
                             stdout=subprocess.PIPE, stderr=subprocess.STDOUT, timeout=3600)
         res["leanchecker_exit"] = lc.returncode
         res["checker_cmd"] += " ; lake env leanchecker Corankco.Props.%s" % pid
